@@ -281,8 +281,78 @@ type FuncResult struct {
 	Props    []string
 }
 
+// verifyLemma: a lemma has no code; its parameters are arbitrary well-formed values.
+func (en *Engine) verifyLemma(fc *FuncContract) (res *FuncResult) {
+	res = &FuncResult{Key: fc.Key, Props: fc.Props}
+	defer func() {
+		if r := recover(); r != nil {
+			switch e := r.(type) {
+			case unsupportedErr:
+				res.Err, res.ErrKind = "unsupported: "+e.msg, "unsupported"
+			case contractErr:
+				res.Err, res.ErrKind = "contract error: "+string(e), "contract"
+			default:
+				panic(r)
+			}
+		}
+	}()
+	pkg := en.typesPkg(fc.PkgPath)
+	if pkg == nil {
+		panic(contractErr("lemma in unknown package " + fc.PkgPath))
+	}
+	ctx := NewCtx()
+	top := &Top{en: en, ctx: ctx, fnKey: shortKey(fc.Key), names: map[string]int{}, cellT: map[int]types.Type{},
+		noteSet: map[string]bool{}, strObjs: map[string]Val{}, entryHeaps: map[string]Term{}, heapSorts: map[string]string{},
+		trusted: map[string]bool{}, props: fc.Props, closures: map[string]Val{}, epochHeaps: map[string]Term{}, epochMerge: map[int][]epochPart{}}
+	ctx.Raw("sort:F64", "(declare-sort F64 0)")
+	ctx.Raw("f64zero", "(declare-fun f64zero () F64)")
+	top.alloc0 = ctx.Const("alloc0", SInt)
+	ctx.Assume(IntCmp(">=", top.alloc0, IntT(1)))
+	ctx.Assume(Eq(top.stamp(Nil), IntT(-1)))
+	fr := &Frame{en: en, top: top, ctx: ctx, fc: fc, regs: map[ssa.Value]Val{}, cellOf: map[*ssa.Alloc]int{}, localNames: map[string][]*ssa.Alloc{}, pkg: pkg}
+	st := &State{pc: True, cells: map[int]Val{}, heaps: map[string]Term{}, alloc: top.alloc0, ghost: map[string]Val{}}
+	fr.entry = st
+	sc := &Scope{fr: fr, st: st, old: st, vars: map[string]Val{}, entry: map[string]Val{}, pkg: pkg}
+	for i, p := range fc.Params {
+		tv, err := types.Eval(en.Fset, pkg, token.NoPos, fc.PTypes[i])
+		if err != nil || tv.Type == nil {
+			panic(contractErr(fmt.Sprintf("lemma %s: cannot resolve type %q", fc.Name, fc.PTypes[i])))
+		}
+		v := fr.fresh("in_"+p, tv.Type)
+		fr.assumeWF(st, v)
+		sc.vars[p] = v
+		sc.entry[p] = v
+	}
+	for _, r := range fc.Requires {
+		ctx.Assume(fr.evalBool(sc, r.E))
+	}
+	for i, e := range fc.Ensures {
+		parts := SplitConj(e.E)
+		for k, p := range parts {
+			g := fr.evalBool(sc, p)
+			name := clauseName(e, i)
+			if len(parts) > 1 {
+				name = fmt.Sprintf("%s.%d", name, k+1)
+			}
+			ce := *e
+			ce.Text, ce.E = ExprString(p), p
+			fr.oblige(st, "lemma", name, g, &ce, token.NoPos)
+			if strings.HasSuffix(e.Label, "lemma") {
+				fr.assume(st, g)
+			}
+		}
+	}
+	fr.oblige(st, "cover", "lemma", False, nil, token.NoPos)
+	res.Obls = top.obls
+	res.Notes = top.notes
+	return
+}
+
 // VerifyFunc generates the obligations of one function under contract.
 func (en *Engine) VerifyFunc(fc *FuncContract) (res *FuncResult) {
+	if fc.IsLemma {
+		return en.verifyLemma(fc)
+	}
 	res = &FuncResult{Key: fc.Key, Props: fc.Props}
 	fn := en.FindFunc(fc.Key)
 	if fn == nil {
@@ -401,8 +471,11 @@ func (en *Engine) VerifyFunc(fc *FuncContract) (res *FuncResult) {
 
 // loopScope builds the scope for loop invariants: parameters (current values via
 // their cells), entry values, named locals.
-func (fr *Frame) loopScope(st *State, loopAlloc Term) *Scope {
+func (fr *Frame) loopScope(st *State, loopAlloc Term, entry ...*State) *Scope {
 	sc := &Scope{fr: fr, st: st, old: fr.entry, vars: map[string]Val{}, entry: map[string]Val{}, pkg: fr.pkg, cells: true, loopAlloc: loopAlloc}
+	if len(entry) > 0 {
+		sc.loopEntry = entry[0]
+	}
 	if fr.fc != nil {
 		for i, p := range fr.fc.Params {
 			if i < len(fr.params) {
